@@ -279,7 +279,7 @@ def case(ctx, rng, idx, state):
 if __name__ == "__main__":
     harness.main(
         PROP, "exploration", case, setup_fn=setup,
-        tiers=dict(quick=dict(cases=3200, shards=8, time=150), thorough=dict(cases=12000, shards=16, time=900)),
+        tiers=dict(quick=dict(cases=3200, shards=8, time=900), thorough=dict(cases=12000, shards=16, time=3000)),
         rule="Gamma-centred meshes with 1-3 non-trivial directions, sizes 2..100 (incl. 96, 97, 99, 100; <= 4000 points "
              "quick / 6000 thorough), shuffled, as exact floats / 8-digit rounded / shifted by lattice vectors and reduced "
              "to [0,1) (un-reduced shifted lists only for get_mp_grid); variants: complete, with duplicates in mixed "
